@@ -1686,3 +1686,1295 @@ Proof.
         [exact He|apply base_set_step; exact Hb|exact Hm|exact Hc].
     + eapply cnt_body_post; [| | | |exact H]; [exact He|exact Hb|exact Hm|exact Hc].
 Qed.
+
+(* ---------- typed containers: the header ---------- *)
+Lemma ustep_type_ext : forall b p a cont, a <> [] ->
+  extL b (ustep_type p a cont) (ustep_type p (a ++ b) cont).
+Proof.
+  intros b p [|m r] cont Ha; [congruence|]. cbn [app]. unfold ustep_type.
+  destruct (marker_state m); [|apply extL_err; discriminate].
+  destruct (m =? mN); [apply extL_err; discriminate|apply extL_same].
+Qed.
+
+Lemma header_steps_cases : forall p,
+  ((u_s (up_cur p) =? sStart) || (u_s (up_cur p) =? sWithType0) || (u_s (up_cur p) =? sWithType1)) = true ->
+  u_s (up_cur p) = sStart \/ u_s (up_cur p) = sWithType0 \/ u_s (up_cur p) = sWithType1.
+Proof. intros p H. blia. Qed.
+
+Lemma ustep_header_eq1 : forall p b, u_s (up_cur p) = sWithType1 ->
+  ustep_header p b = ustep_len p b (with_step (up_cur p) sWithLen).
+Proof. intros p b H. unfold ustep_header. rewrite H. reflexivity. Qed.
+
+Definition istyped (p : uparser) : Prop :=
+  u_t (up_cur p) = tArrayTyped \/ u_t (up_cur p) = tObjectTyped.
+
+Lemma header_dich : forall b p s a,
+  istyped p -> good p ->
+  u_s (up_cur p) = sStart \/ u_s (up_cur p) = sWithType0 \/ u_s (up_cur p) = sWithType1 ->
+  a <> [] -> b <> [] ->
+  (forall q g s', up_cur q = up_cur p -> xbody0 (uexec g) q s' b = of_ul (ustep_header q b) s') ->
+  Dich b (of_ul (ustep_header p a) s) (of_ul (ustep_header p (a ++ b)) s).
+Proof.
+  intros b p s a Ht Hg Hs Ha Hb0 Hx. destruct Hs as [Hs|[Hs|Hs]].
+  - apply Dich_ext, ext_of_ul. unfold ustep_header. rewrite Hs.
+    replace (sStart =? sStart) with true by reflexivity. cbv iota.
+    apply ustep_type_ext. exact Ha.
+  - apply Dich_ext, ext_of_ul. unfold ustep_header. rewrite Hs.
+    replace (sWithType0 =? sStart) with false by reflexivity.
+    replace (sWithType0 =? sWithType0) with true by reflexivity. cbv iota.
+    destruct a as [|c r]; [congruence|]. cbn [app].
+    destruct (negb (c =? mCount)); [apply extL_err; discriminate|apply extL_same].
+  - rewrite !ustep_header_eq1 by exact Hs.
+    assert (Hl : lenst p = true) by (destruct Ht as [Ht|Ht]; unfold lenst; blia).
+    eapply of_ul_dich; [exact Hl| |].
+    + apply ustep_len_dich; auto. apply good_len; assumption.
+    + intros q g s' A B C. rewrite Hx by exact A.
+      rewrite ustep_header_eq1 by (rewrite A; exact Hs). rewrite A. reflexivity.
+Qed.
+
+Lemma header_post : forall p s a p1 s1 rest d,
+  up_err p = 0 -> istyped p -> good p ->
+  u_s (up_cur p) = sStart \/ u_s (up_cur p) = sWithType0 \/ u_s (up_cur p) = sWithType1 ->
+  of_ul (ustep_header p a) s = UR p1 s1 rest d unilE -> Post p1 d.
+Proof.
+  intros p s a p1 s1 rest d He Ht Hg Hs H.
+  assert (Hb : base p) by apply Hg.
+  destruct Hs as [Hs|[Hs|Hs]].
+  - assert (Hc : clean p) by (destruct Ht as [Ht|Ht]; solve_clean Hg).
+    unfold ustep_header in H. rewrite Hs in H.
+    replace (sStart =? sStart) with true in H by reflexivity. cbv iota in H.
+    unfold ustep_type in H. destruct a as [|m r]; [discriminate|].
+    destruct (marker_state m) as [st|] eqn:Em; [|discriminate].
+    destruct (m =? mN); [discriminate|]. cbn [of_ul] in H. invSR H. split; [|discriminate].
+    apply Inv_clean; [exact He| |exact Hc].
+    destruct Hb as (H1 & H2 & H3). unfold base. pc. split; [|split].
+    + eapply stk_same_t; [|exact H1]. reflexivity.
+    + destruct (marker_state_mid _ _ Em) as [M _]. exact M.
+    + destruct (u_t (up_vcur p) =? tFail); [exact H3|constructor; assumption].
+  - assert (Hc : clean p) by (destruct Ht as [Ht|Ht]; solve_clean Hg).
+    unfold ustep_header in H. rewrite Hs in H.
+    replace (sWithType0 =? sStart) with false in H by reflexivity.
+    replace (sWithType0 =? sWithType0) with true in H by reflexivity. cbv iota in H.
+    destruct a as [|c r]; [discriminate|].
+    destruct (negb (c =? mCount)); [discriminate|]. cbn [of_ul] in H. invSR H. split; [|discriminate].
+    apply Inv_clean; [exact He| |exact Hc].
+    apply (base_set_step p sWithType1 Hb).
+  - rewrite ustep_header_eq1 in H by exact Hs.
+    apply (of_ul_post _ p s a p1 s1 rest d He Hg) with (3 := H); [|reflexivity].
+    destruct Ht as [Ht|Ht]; unfold lenst; blia.
+Qed.
+
+(* pushing the element state of a typed container *)
+Lemma Inv_push_vcur : forall q, up_err q = 0 -> base q -> clean q -> Inv (u_push q (up_vcur q)).
+Proof.
+  intros q He Hb Hc.
+  destruct (Z.eq_dec (u_t (up_vcur q)) tFail) as [E|E].
+  - split; [exact He|left]. pc. exact E.
+  - apply Inv_clean; [exact He| |exact Hc]. apply base_push; [exact Hb|].
+    split; [apply Hb|exact E].
+Qed.
+
+(* ---------- stArrayTyped ---------- *)
+Definition typ_body (rec : uparser -> sink -> bytes -> ures)
+    (p1 : uparser) (s1 : sink) (e0 : Z) (l : Z) (b : bytes) : ures :=
+  if negb (unil e0) then UR p1 s1 b false e0
+  else if l =? 0 then
+    let '(s2, e) := uvis s1 EArrEnd in
+    if unil e then let '(p2, d) := upop_len_state (v_pop p1) in UR p2 s2 b d unilE else UR p1 s2 b true e
+  else
+    let p2 := uset_lcur p1 (up_lcur p1 - 1) in
+    value_nodone (rec (u_push p2 (up_vcur p2)) s1 b).
+Lemma arr_typed_eq : forall rec p s b,
+  arr_typed rec p s b =
+    if (u_s (up_cur p) =? sStart) || (u_s (up_cur p) =? sWithType0) || (u_s (up_cur p) =? sWithType1)
+    then of_ul (ustep_header p b) s
+    else
+      let '(p1, s1, e0) :=
+        if u_s (up_cur p) =? sWithLen
+        then let '(s1, e) := uvis s (EArrStart (up_lcur p) (up_vtype p)) in (uset_step p sCont, s1, e)
+        else (p, s, unilE) in
+      typ_body rec p1 s1 e0 (up_lcur p) b.
+Proof. reflexivity. Qed.
+
+Definition DichAt (f : nat) : Prop := forall p s a b,
+  Inv p -> a <> [] \/ cstep p = true -> b <> [] ->
+  Dich b (uexec f p s a) (uexec f p s (a ++ b)).
+Definition PostAt (f : nat) : Prop := forall p s a p1 s1 rest d,
+  Inv p -> uexec f p s a = UR p1 s1 rest d unilE -> Post p1 d.
+
+Lemma typ_body_dich : forall f b p1 s1 e0 l a,
+  DichAt f -> up_err p1 = 0 -> base p1 -> clean p1 -> b <> [] ->
+  a <> [] \/ l = 0 \/ is_zero_sized (up_vcur p1) = true ->
+  Dich b (typ_body (uexec f) p1 s1 e0 l a) (typ_body (uexec f) p1 s1 e0 l (a ++ b)).
+Proof.
+  intros f b p1 s1 e0 l a IH He Hb Hc Hb0 Ha. unfold typ_body.
+  destruct (negb (unil e0)) eqn:E0.
+  { apply Dich_ext, ext_err. apply unil_false. apply negb_true_iff. exact E0. }
+  destruct (l =? 0) eqn:El.
+  { apply Dich_ext. repeat (first [ ext_solve | bm ]). }
+  cbv zeta. pc. apply Dich_nodone. apply IH.
+  - apply (Inv_push_vcur (uset_lcur p1 (up_lcur p1 - 1))); assumption.
+  - destruct Ha as [Ha|[Ha|Ha]]; [left; exact Ha|lia|right].
+    unfold cstep, can_step_without_input. pc.
+    assert (Hf : u_t (up_vcur p1) = tFixed) by (unfold is_zero_sized in Ha; blia).
+    rewrite Hf. exact Ha.
+  - exact Hb0.
+Qed.
+
+Lemma typ_body_post : forall f p1 s1 e0 l a p2 s2 rest d,
+  PostAt f -> up_err p1 = 0 -> base p1 -> mid (up_cur p1) -> clean p1 ->
+  typ_body (uexec f) p1 s1 e0 l a = UR p2 s2 rest d unilE -> Post p2 d.
+Proof.
+  intros f p1 s1 e0 l a p2 s2 rest d IH He Hb Hm Hc H. unfold typ_body in H.
+  destruct (negb (unil e0)) eqn:E0.
+  { invSR H. discriminate. }
+  destruct (l =? 0).
+  { destruct (uvis s1 EArrEnd) as [s3 e]. destruct (unil e) eqn:Ee.
+    - destruct (upop_len_state (v_pop p1)) as [q dq] eqn:Ep. invSR H.
+      destruct (v_pop_proj p1) as (A & _ & _ & _ & _ & _ & G).
+      eapply upop_len_state_post; [| | | |exact Ep].
+      + congruence.
+      + apply base_v_pop; exact Hb.
+      + rewrite A; exact Hm.
+      + apply clean_v_pop; exact Hc.
+    - invSR H. discriminate. }
+  cbv zeta in H. pc.
+  destruct (uexec f _ s1 a) as [q sq rq dq eq|c] eqn:E; [|discriminate].
+  cbn [value_nodone] in H. invSR H. split; [|discriminate].
+  eapply IH; [|exact E].
+  apply (Inv_push_vcur (uset_lcur p1 (up_lcur p1 - 1))); assumption.
+Qed.
+
+Lemma cstep_arrtyped : forall p, u_t (up_cur p) = tArrayTyped -> cstep p = true ->
+  (u_s (up_cur p) = sWithLen \/ u_s (up_cur p) = sCont) /\
+  (up_lcur p = 0 \/ is_zero_sized (up_vcur p) = true).
+Proof.
+  intros p Ht H. unfold cstep, can_step_without_input in H. rewrite Ht in H.
+  change (tArrayTyped =? tFixed) with false in H.
+  change (tArrayTyped =? tArrayCount) with false in H.
+  change (tArrayTyped =? tArrayTyped) with true in H. cbv iota in H.
+  apply andb_true_iff in H. destruct H as [H1 H2]. apply orb_true_iff in H2.
+  split; [blia|]. destruct H2 as [H2|H2]; [left; lia|right; exact H2].
+Qed.
+
+Lemma arr_typed_dich : forall f b p s a,
+  DichAt f -> up_err p = 0 -> u_t (up_cur p) = tArrayTyped -> good p ->
+  a <> [] \/ cstep p = true -> b <> [] ->
+  Dich b (arr_typed (uexec f) p s a) (arr_typed (uexec f) p s (a ++ b)).
+Proof.
+  intros f b p s a IH He Ht Hg Ha Hb0. rewrite !arr_typed_eq.
+  assert (Hb : base p) by apply Hg.
+  destruct ((u_s (up_cur p) =? sStart) || (u_s (up_cur p) =? sWithType0) || (u_s (up_cur p) =? sWithType1)) eqn:E1.
+  - pose proof (header_steps_cases p E1) as Hs.
+    assert (Ha' : a <> []).
+    { destruct Ha as [Ha|Ha]; [exact Ha|]. apply cstep_arrtyped in Ha; [|exact Ht]. blia. }
+    apply header_dich; auto; [left; exact Ht|].
+    intros q g s' A. rewrite xb_arrtyped by congruence. rewrite arr_typed_eq, A, E1. reflexivity.
+  - assert (Hc : clean p) by solve_clean Hg.
+    assert (Ha' : a <> [] \/ up_lcur p = 0 \/ is_zero_sized (up_vcur p) = true).
+    { destruct Ha as [Ha|Ha]; [left; exact Ha|right]. apply cstep_arrtyped in Ha; tauto. }
+    destruct (u_s (up_cur p) =? sWithLen).
+    + destruct (uvis s _) as [s1 e]. apply typ_body_dich; auto;
+        try (apply base_set_step; exact Hb).
+    + apply typ_body_dich; auto.
+Qed.
+
+Lemma arr_typed_post : forall f p s a p1 s1 rest d,
+  PostAt f -> up_err p = 0 -> good p -> u_t (up_cur p) = tArrayTyped ->
+  arr_typed (uexec f) p s a = UR p1 s1 rest d unilE -> Post p1 d.
+Proof.
+  intros f p s a p1 s1 rest d IH He Hg Ht H. rewrite arr_typed_eq in H.
+  assert (Hm : mid (up_cur p)) by (apply mid_t; rewrite Ht; discriminate).
+  assert (Hb : base p) by apply Hg.
+  destruct ((u_s (up_cur p) =? sStart) || (u_s (up_cur p) =? sWithType0) || (u_s (up_cur p) =? sWithType1)) eqn:E1.
+  - pose proof (header_steps_cases p E1) as Hs.
+    eapply header_post; [exact He|left; exact Ht|exact Hg|exact Hs|exact H].
+  - assert (Hc : clean p) by solve_clean Hg.
+    destruct (u_s (up_cur p) =? sWithLen).
+    + destruct (uvis s _) as [s2 e].
+      eapply typ_body_post; [exact IH| | | | |exact H];
+        [exact He|apply base_set_step; exact Hb|exact Hm|exact Hc].
+    + eapply typ_body_post; [exact IH| | | | |exact H]; [exact He|exact Hb|exact Hm|exact Hc].
+Qed.
+
+(* ---------- stObjectDyn ---------- *)
+Lemma cstep_objdyn : forall p, u_t (up_cur p) = tObjectDyn ->
+  cstep p = (u_s (up_cur p) =? sFieldNameLen) && (up_lcur p =? 0).
+Proof. intros p H. unfold cstep, can_step_without_input. rewrite H. reflexivity. Qed.
+
+Lemma obj_dyn_emptykey_ext : forall b p s a,
+  ext b (obj_dyn_emptykey p s a) (obj_dyn_emptykey p s (a ++ b)).
+Proof. intros. unfold obj_dyn_emptykey. repeat (first [ ext_solve | bm ]). Qed.
+
+Lemma lenst_objdyn : forall p, u_t (up_cur p) = tObjectDyn ->
+  lenst p = (u_s (up_cur p) =? sStart).
+Proof. intros p H. unfold lenst. blia. Qed.
+Lemma count_of_objdyn_key : forall p, u_t (up_cur p) = tObjectDyn ->
+  u_s (up_cur p) = sFieldNameLen -> count_of p = up_lcur p.
+Proof.
+  intros p H Hs. unfold count_of. rewrite (lenst_objdyn p H), H, Hs. reflexivity.
+Qed.
+
+Lemma base_key_done : forall p, base p -> base (uset_step (ul_pop p) sCont).
+Proof. intros p H. apply base_set_step. apply base_ul_pop. exact H. Qed.
+Lemma clean_key_done : forall p, clean p -> clean (uset_step (ul_pop p) sCont).
+Proof. intros p H. apply (clean_ul_pop p H). Qed.
+Lemma err_key_done : forall p, up_err (uset_step (ul_pop p) sCont) = up_err p.
+Proof. intros p. pc. apply ul_pop_proj. Qed.
+
+Lemma obj_dyn_emptykey_post : forall p s a p1 s1 rest d,
+  up_err p = 0 -> good p -> u_t (up_cur p) = tObjectDyn ->
+  u_s (up_cur p) = sFieldNameLen -> up_lcur p = 0 ->
+  obj_dyn_emptykey p s a = UR p1 s1 rest d unilE -> Post p1 d.
+Proof.
+  intros p s a p1 s1 rest d He Hg Ht Hs Hl H. unfold obj_dyn_emptykey in H.
+  assert (Hc : clean p).
+  { apply good_clean; [exact Hg| |].
+    - rewrite lenst_objdyn, Hs by exact Ht. reflexivity.
+    - rewrite count_of_objdyn_key by assumption. exact Hl. }
+  destruct (uvis s _) as [s2 e]. invSR H. split; [|discriminate].
+  apply Inv_clean.
+  - rewrite err_key_done. exact He.
+  - apply base_key_done. apply Hg.
+  - apply clean_key_done. exact Hc.
+Qed.
+
+Lemma obj_dyn_dich : forall b p s a,
+  u_t (up_cur p) = tObjectDyn -> good p ->
+  (u_s (up_cur p) =? sFieldNameLen) && (up_lcur p =? 0) = false ->
+  a <> [] -> b <> [] ->
+  Dich b (obj_dyn p s a) (obj_dyn p s (a ++ b)).
+Proof.
+  intros b p s a Ht Hg Hk Ha Hb0. destruct a as [|x r]; [congruence|].
+  unfold obj_dyn at 1 2. cbn [app].
+  destruct ((u_s (up_cur p) =? sStart) && (up_marker p =? 0) && (x =? mObjE)) eqn:C1.
+  { apply Dich_ext. repeat (first [ ext_solve | bm ]). }
+  destruct (u_s (up_cur p) =? sStart) eqn:C2.
+  { change (x :: r ++ b) with ((x :: r) ++ b).
+    assert (Hl : lenst p = true) by (rewrite lenst_objdyn by exact Ht; exact C2).
+    eapply of_ul_dich; [exact Hl| |].
+    - apply ustep_len_dich; [apply good_len; assumption|discriminate|exact Hb0].
+    - intros q g s' A B C. rewrite xb_objdyn by congruence. rewrite A, B, Hk.
+      destruct b as [|y br]; [congruence|]. unfold obj_dyn. rewrite A, C2.
+      replace (up_marker q =? 0) with false by lia. reflexivity. }
+  destruct (u_s (up_cur p) =? sFieldNameLen) eqn:C3.
+  { apply Z.eqb_eq in C3.
+    assert (Hbuf : bufok p (up_lcur p)).
+    { destruct (good_nolen p Hg) as [_ Hbuf]; [rewrite lenst_objdyn by exact Ht; exact C2|].
+      rewrite count_of_objdyn_key in Hbuf by assumption. exact Hbuf. }
+    destruct (ucollect p (x :: r) (up_lcur p)) as [p1 rest [t|]|] eqn:E; [..|exact I].
+    - apply Dich_ext. destruct (collect_some_app p (x :: r) b _ _ _ _ Hbuf E) as [E2 _].
+      cbn [app] in E2. rewrite E2. destruct (uvis s _) as [s1 e].
+      destruct (unil e) eqn:Ee; [apply unil_true in Ee; subst e; apply ext_same|].
+      apply ext_err. apply unil_false. exact Ee.
+    - destruct (collect_none_app p (x :: r) b _ _ _ Hbuf E) as (-> & -> & Hb1 & _ & E2).
+      right. split; [reflexivity|]. split; [reflexivity|]. split.
+      + rewrite cstep_objdyn by exact Ht. pc. rewrite C3.
+        replace (sFieldNameLen =? sFieldNameLen) with true by reflexivity. exact Hk.
+      + intros g. rewrite uexec_S, xb_objdyn by exact Ht. apply ext_latch_l. pc. rewrite C3.
+        replace (sFieldNameLen =? sFieldNameLen) with true by reflexivity. rewrite Hk.
+        destruct b as [|y br]; [congruence|]. unfold obj_dyn. pc. rewrite C3.
+        replace (sFieldNameLen =? sStart) with false by reflexivity. cbn [andb].
+        replace (sFieldNameLen =? sFieldNameLen) with true by reflexivity.
+        rewrite E2. cbn [app]. apply ext_refl. }
+  destruct (u_s (up_cur p) =? sCont) eqn:C4.
+  { apply Dich_ext. destruct (x =? mN); [ext_solve|].
+    apply ext_nodone. apply (ustep_value_ext b _ s (x :: r)). discriminate. }
+  apply Dich_ext. apply (ext_same b p s (x :: r)).
+Qed.
+
+Lemma obj_dyn_post : forall p s a p1 s1 rest d,
+  up_err p = 0 -> good p -> u_t (up_cur p) = tObjectDyn ->
+  obj_dyn p s a = UR p1 s1 rest d unilE -> Post p1 d.
+Proof.
+  intros p s a p1 s1 rest d He Hg Ht H.
+  assert (Hm : mid (up_cur p)) by (apply mid_t; rewrite Ht; discriminate).
+  assert (Hb : base p) by apply Hg.
+  assert (HI : Inv p) by (split; [exact He|right; exact Hg]).
+  unfold obj_dyn in H. destruct a as [|x r]; [discriminate|].
+  destruct ((u_s (up_cur p) =? sStart) && (up_marker p =? 0) && (x =? mObjE)) eqn:C1.
+  { apply andb_true_iff in C1. destruct C1 as [C1 _]. apply andb_true_iff in C1.
+    destruct C1 as [C1 C1']. apply Z.eqb_eq in C1'.
+    assert (Hl : lenst p = true) by (rewrite lenst_objdyn by exact Ht; exact C1).
+    pose proof (good_len p Hg Hl) as Hbuf. rewrite C1' in Hbuf. apply bufok_0 in Hbuf.
+    destruct (uvis s EObjEnd) as [s2 e]. destruct (unil e) eqn:Ee.
+    - destruct (upop_state p) as [q dq] eqn:Ep. invSR H.
+      eapply upop_state_post; eauto. split; assumption.
+    - invSR H. discriminate. }
+  destruct (u_s (up_cur p) =? sStart) eqn:C2.
+  { apply (of_ul_post _ p s (x :: r) p1 s1 rest d He Hg) with (3 := H); [|reflexivity].
+    rewrite lenst_objdyn by exact Ht. exact C2. }
+  destruct (good_nolen p Hg) as [Hmk Hbuf]; [rewrite lenst_objdyn by exact Ht; exact C2|].
+  destruct (u_s (up_cur p) =? sFieldNameLen) eqn:C3.
+  { apply Z.eqb_eq in C3. rewrite count_of_objdyn_key in Hbuf by assumption.
+    destruct (ucollect p (x :: r) (up_lcur p)) as [q rest1 [t|]|] eqn:E; [..|discriminate].
+    - destruct (collect_some_app p (x :: r) [] _ _ _ _ Hbuf E) as [_ ->].
+      destruct (uvis s _) as [s2 e]. invSR H. split; [|discriminate].
+      apply Inv_clean.
+      + rewrite err_key_done. exact He.
+      + apply base_key_done. exact Hb.
+      + apply clean_key_done. split; pc; auto.
+    - destruct (collect_none_app p (x :: r) [] _ _ _ Hbuf E) as (-> & -> & Hb1 & _ & _).
+      invSR H. split; [|discriminate].
+      split; [exact He|right]. split; [exact Hb|]. split.
+      + change (count_of (uset_buf p (up_buf p ++ x :: r))) with (count_of p).
+        rewrite count_of_objdyn_key by assumption. exact Hb1.
+      + intros _. exact Hmk. }
+  assert (Hc : clean p).
+  { split; [|exact Hmk]. apply bufok_0.
+    replace (count_of p) with 0 in Hbuf; [exact Hbuf|].
+    unfold count_of. rewrite lenst_objdyn, C2, Ht, C3 by exact Ht. reflexivity. }
+  destruct (u_s (up_cur p) =? sCont) eqn:C4.
+  { destruct (x =? mN).
+    - invSR H. split; [exact HI|discriminate].
+    - eapply value_nodone_post; [| | |exact H]; auto; try (apply base_set_step; exact Hb). }
+  invSR H. split; [exact HI|discriminate].
+Qed.
+
+(* ---------- stObjectCount / stObjectTyped ---------- *)
+Definition oc_close (fin : bool) (p : uparser) (s : sink) (rest : bytes) (err : Z) : ocres :=
+  if fin then let '(s1, e) := uvis s EObjEnd in OC true p s1 rest e else OC false p s rest err.
+Definition oc_len (s : sink) (r : ulres) : ocres :=
+  match r with
+  | ULC w => OCC w
+  | UL p1 rest err => oc_close false p1 s rest err
+  end.
+Definition oc_field_name (p : uparser) (s : sink) (b : bytes) : ocres :=
+  if up_lcur p =? 0 then oc_close true p s b unilE
+  else oc_len s (ustep_len p b (with_step (up_cur p) sFieldNameLen)).
+Definition oc_key (p : uparser) (s : sink) (b : bytes) : ocres :=
+  match (if up_lcur p =? 0 then UC p b (Some []) else ucollect p b (up_lcur p)) with
+  | UCC => OCC 12
+  | UC p1 rest None => oc_close false p1 s rest unilE
+  | UC p1 rest (Some tmp) =>
+      let p2 := ul_pop p1 in
+      let '(s1, e) := uvis s (EKeyRef tmp) in
+      oc_close false (uset_step p2 sCont) s1 rest e
+  end.
+Definition oc_cont (p : uparser) (s : sink) (b : bytes) (typed : bool) : ocres :=
+  match b with
+  | [] =>
+      if typed then
+        let p1 := uset_step (uset_lcur p (up_lcur p - 1)) sFieldName in
+        oc_close false (u_push p1 (up_vcur p1)) s b unilE
+      else OCC 13
+  | x :: r =>
+      if negb typed && (x =? mN) then oc_close false p s r unilE
+      else
+        let p1 := uset_step (uset_lcur p (up_lcur p - 1)) sFieldName in
+        if typed then oc_close false (u_push p1 (up_vcur p1)) s b unilE
+        else match value_nodone (ustep_value p1 s b) with
+             | UCrash w => OCC w
+             | UR p2 s2 rest _ err => oc_close false p2 s2 rest err
+             end
+  end.
+Definition oc_withlen (p : uparser) (s : sink) (b : bytes) : ocres :=
+  let L := up_lcur p in
+  let '(s1, e) := uvis s (EObjStart L BAny) in
+  if negb (unil e) then OC false p s1 b e
+  else if L =? 0 then oc_close true p s1 b unilE
+  else oc_field_name (uset_step p sFieldName) s1 b.
+
+Lemma obj_content_eq : forall p s b typed,
+  ustep_obj_content p s b typed =
+    let step := u_s (up_cur p) in
+    if step =? sWithLen then oc_withlen p s b
+    else if step =? sFieldName then oc_field_name p s b
+    else if step =? sFieldNameLen then oc_key p s b
+    else if step =? sCont then oc_cont p s b typed
+    else oc_close false p s b unilE.
+Proof. reflexivity. Qed.
+
+Definition obj_wrap (typed : bool) (r : ocres) : ures :=
+  match r with
+  | OCC w => UCrash w
+  | OC fin p1 s1 rest err =>
+      if fin && unil err
+      then let '(p2, d) := upop_len_state (if typed then v_pop p1 else p1) in UR p2 s1 rest d unilE
+      else UR p1 s1 rest fin err
+  end.
+Lemma obj_counted_eq : forall p s b,
+  obj_counted p s b =
+    if u_s (up_cur p) =? sStart then of_ul (ustep_len p b (with_step (up_cur p) sWithLen)) s
+    else obj_wrap false (ustep_obj_content p s b false).
+Proof. reflexivity. Qed.
+Lemma obj_typed_eq : forall p s b,
+  obj_typed p s b =
+    if (u_s (up_cur p) =? sStart) || (u_s (up_cur p) =? sWithType0) || (u_s (up_cur p) =? sWithType1)
+    then of_ul (ustep_header p b) s
+    else obj_wrap true (ustep_obj_content p s b true).
+Proof. reflexivity. Qed.
+
+Lemma wrap_ext : forall typed b r w, extO b r w -> ext b (obj_wrap typed r) (obj_wrap typed w).
+Proof.
+  intros typed b [f1 p1 s1 rest e|c] [f2 p2 s2 rest' e'|c'] H; cbn [extO obj_wrap] in *;
+    try tauto; try exact I.
+  destruct H as (<- & <- & H). destruct (unil e) eqn:Ee.
+  - apply unil_true in Ee. destruct (H Ee) as (<- & <- & ->).
+    destruct (f1 && true); [|apply ext_same].
+    destruct (upop_len_state _) as [q dq]. apply ext_same.
+  - rewrite !andb_false_r. apply ext_err. apply unil_false. exact Ee.
+Qed.
+
+Lemma oc_close_ext : forall b fin p s rest e,
+  extO b (oc_close fin p s rest e) (oc_close fin p s (rest ++ b) e).
+Proof.
+  intros. unfold oc_close. destruct fin; [|apply extO_same].
+  destruct (uvis s EObjEnd) as [s1 e1]. apply extO_same.
+Qed.
+Lemma oc_len_ext : forall b s x w, extL b x w -> extO b (oc_len s x) (oc_len s w).
+Proof.
+  intros b s [p1 rest e|c] [p2 rest' e'|c'] H; cbn [extL oc_len oc_close extO] in *;
+    try tauto; try exact I.
+Qed.
+
+Definition objc (p : uparser) (typed : bool) : Prop :=
+  (u_t (up_cur p) = tObjectCount /\ typed = false) \/ (u_t (up_cur p) = tObjectTyped /\ typed = true).
+Lemma objc_mid : forall p typed, objc p typed -> mid (up_cur p).
+Proof. intros p typed [[H _]|[H _]]; apply mid_t; rewrite H; discriminate. Qed.
+
+Lemma xb_content : forall typed rec q s b, objc q typed ->
+  u_s (up_cur q) = sFieldName \/ u_s (up_cur q) = sFieldNameLen ->
+  xbody0 rec q s b = obj_wrap typed (ustep_obj_content q s b typed).
+Proof.
+  intros typed rec q s b [[Ht ->]|[Ht ->]] Hs.
+  - rewrite xb_objcount by exact Ht. rewrite obj_counted_eq.
+    replace (u_s (up_cur q) =? sStart) with false by blia. reflexivity.
+  - rewrite xb_objtyped by exact Ht. rewrite obj_typed_eq.
+    replace ((u_s (up_cur q) =? sStart) || (u_s (up_cur q) =? sWithType0) || (u_s (up_cur q) =? sWithType1))
+      with false by blia. reflexivity.
+Qed.
+
+Lemma lenst_objc_fn : forall p typed, objc p typed -> u_s (up_cur p) = sFieldName ->
+  lenst p = negb (up_lcur p =? 0).
+Proof. intros p typed [[Ht _]|[Ht _]] Hs; unfold lenst; blia. Qed.
+Lemma lenst_objc_other : forall p typed, objc p typed ->
+  u_s (up_cur p) = sWithLen \/ u_s (up_cur p) = sFieldNameLen \/ u_s (up_cur p) = sCont \/
+  (u_s (up_cur p) <> sStart /\ (typed = true -> u_s (up_cur p) <> sWithType1) /\
+   u_s (up_cur p) <> sFieldName) ->
+  lenst p = false.
+Proof.
+  intros p typed [[Ht Hty]|[Ht Hty]] Hs; unfold lenst.
+  - blia.
+  - assert (u_s (up_cur p) = sWithLen \/ u_s (up_cur p) = sFieldNameLen \/ u_s (up_cur p) = sCont \/
+            (u_s (up_cur p) <> sStart /\ u_s (up_cur p) <> sWithType1 /\ u_s (up_cur p) <> sFieldName))
+      by (destruct Hs as [Hs|[Hs|[Hs|(H1 & H2 & H3)]]];
+          [auto|auto|auto 6|right; right; right; split; [exact H1|split; [exact (H2 Hty)|exact H3]]]).
+    blia.
+Qed.
+Lemma count_of_objc_key : forall p typed, objc p typed -> u_s (up_cur p) = sFieldNameLen ->
+  count_of p = up_lcur p.
+Proof.
+  intros p typed Ho Hs. unfold count_of. rewrite (lenst_objc_other p typed Ho) by auto.
+  destruct Ho as [[Ht _]|[Ht _]]; rewrite Ht, Hs; reflexivity.
+Qed.
+Lemma count_of_objc_0 : forall p typed, objc p typed -> lenst p = false ->
+  u_s (up_cur p) <> sFieldNameLen -> count_of p = 0.
+Proof.
+  intros p typed Ho Hl Hs. unfold count_of. rewrite Hl.
+  destruct Ho as [[Ht _]|[Ht _]]; rewrite Ht; ifs; reflexivity.
+Qed.
+Lemma cstep_objc_key : forall p typed, objc p typed ->
+  u_s (up_cur p) = sFieldName \/ u_s (up_cur p) = sFieldNameLen -> up_lcur p <> 0 -> cstep p = false.
+Proof.
+  intros p typed [[Ht _]|[Ht _]] Hs Hl; unfold cstep, can_step_without_input; rewrite Ht.
+  - change (tObjectCount =? tFixed) with false. change (tObjectCount =? tArrayCount) with false.
+    change (tObjectCount =? tArrayTyped) with false. change (tObjectCount =? tObjectDyn) with false.
+    change (tObjectCount =? tObjectCount) with true. cbv iota. blia.
+  - change (tObjectTyped =? tFixed) with false. change (tObjectTyped =? tArrayCount) with false.
+    change (tObjectTyped =? tArrayTyped) with false. change (tObjectTyped =? tObjectDyn) with false.
+    change (tObjectTyped =? tObjectCount) with false.
+    change (tObjectTyped =? tObjectTyped) with true. cbv iota. blia.
+Qed.
+
+Lemma oc_field_name_dich : forall typed b q s a,
+  objc q typed -> u_s (up_cur q) = sFieldName -> bufok q (markcount (up_marker q)) ->
+  a <> [] \/ up_lcur q = 0 -> b <> [] ->
+  Dich b (obj_wrap typed (oc_field_name q s a)) (obj_wrap typed (oc_field_name q s (a ++ b))).
+Proof.
+  intros typed b q s a Ho Hs Hbuf Ha Hb0. unfold oc_field_name.
+  destruct (up_lcur q =? 0) eqn:El.
+  { apply Dich_ext, wrap_ext, oc_close_ext. }
+  assert (Ha' : a <> []) by (destruct Ha as [Ha|Ha]; [exact Ha|lia]).
+  set (cont := with_step (up_cur q) sFieldNameLen).
+  pose proof (ustep_len_dich cont q a b Hbuf Ha' Hb0) as D.
+  destruct (ustep_len q a cont) as [p1 rest e|c] eqn:EL; [|exact I].
+  cbn [LDich] in D. destruct D as [D|(D1 & D2 & D3 & D4 & D5 & D6)].
+  - apply Dich_ext, wrap_ext. apply (oc_len_ext b s (UL p1 rest e) _ D).
+  - subst rest e. cbn [oc_len oc_close obj_wrap andb].
+    right. split; [reflexivity|]. split; [reflexivity|].
+    assert (Ho1 : objc p1 typed) by (unfold objc in *; rewrite D4; exact Ho).
+    assert (Hs1 : u_s (up_cur p1) = sFieldName) by (rewrite D4; exact Hs).
+    split.
+    + eapply cstep_objc_key; [exact Ho1|left; exact Hs1|lia].
+    + intros g. rewrite uexec_S, (xb_content typed) by auto. apply ext_latch_l.
+      apply wrap_ext. rewrite obj_content_eq. cbv zeta. rewrite Hs1.
+      replace (sFieldName =? sWithLen) with false by reflexivity.
+      replace (sFieldName =? sFieldName) with true by reflexivity. cbv iota.
+      unfold oc_field_name. rewrite D5, El, D4. fold cont.
+      apply (oc_len_ext [] s _ _ D6).
+Qed.
+
+Lemma oc_key_dich : forall typed b p s a,
+  objc p typed -> u_s (up_cur p) = sFieldNameLen -> bufok p (up_lcur p) -> b <> [] ->
+  Dich b (obj_wrap typed (oc_key p s a)) (obj_wrap typed (oc_key p s (a ++ b))).
+Proof.
+  intros typed b p s a Ho Hs Hbuf Hb0. unfold oc_key at 1.
+  destruct (up_lcur p =? 0) eqn:El.
+  { apply Dich_ext, wrap_ext. unfold oc_key. rewrite El.
+    destruct (uvis s _) as [s1 e]. apply oc_close_ext. }
+  destruct (ucollect p a (up_lcur p)) as [p1 rest [t|]|] eqn:E; [..|exact I].
+  - apply Dich_ext, wrap_ext. destruct (collect_some_app p a b _ _ _ _ Hbuf E) as [E2 _].
+    unfold oc_key. rewrite El, E2. destruct (uvis s _) as [s1 e]. apply oc_close_ext.
+  - destruct (collect_none_app p a b _ _ _ Hbuf E) as (-> & -> & Hb1 & _ & E2).
+    cbn [oc_close obj_wrap andb]. right. split; [reflexivity|]. split; [reflexivity|]. split.
+    + eapply cstep_objc_key; [exact Ho|right; exact Hs|pc; lia].
+    + intros g. rewrite uexec_S, (xb_content typed) by auto. apply ext_latch_l.
+      apply wrap_ext. rewrite obj_content_eq. cbv zeta. pc. rewrite Hs.
+      replace (sFieldNameLen =? sWithLen) with false by reflexivity.
+      replace (sFieldNameLen =? sFieldName) with false by reflexivity.
+      replace (sFieldNameLen =? sFieldNameLen) with true by reflexivity. cbv iota.
+      unfold oc_key. pc. rewrite El, E2. apply extO_refl.
+Qed.
+
+Lemma oc_cont_ext : forall typed b p s a, a <> [] \/ typed = true -> b <> [] ->
+  extO b (oc_cont p s a typed) (oc_cont p s (a ++ b) typed).
+Proof.
+  intros typed b p s a Ha Hb0. destruct a as [|x r].
+  - destruct Ha as [Ha|Hty]; [congruence|subst typed]. cbn [app].
+    destruct b as [|y br]; [congruence|]. unfold oc_cont. cbn [negb andb].
+    apply (oc_close_ext (y :: br) false _ s []).
+  - cbn [app]. unfold oc_cont.
+    destruct (negb typed && (x =? mN)); [apply oc_close_ext|].
+    destruct typed; [apply (oc_close_ext b false _ s (x :: r))|].
+    pose proof (ustep_value_ext b (uset_step (uset_lcur p (up_lcur p - 1)) sFieldName) s (x :: r)) as V.
+    cbn [app] in V.
+    destruct (ustep_value _ s (x :: r)) as [p2 s2 rest d e|c]; cbn [value_nodone]; [|exact I].
+    destruct (ustep_value _ s (x :: r ++ b)) as [p3 s3 rest3 d3 e3|c3]; cbn [value_nodone ext] in *;
+      [|apply V; discriminate].
+    destruct V as (<- & <- & V); [discriminate|]. cbn [oc_close extO].
+    split; [reflexivity|]. split; [reflexivity|]. intros Ee. destruct (V Ee) as [<- ->]. auto.
+Qed.
+
+Lemma cstep_objc_true : forall p typed, objc p typed -> cstep p = true ->
+  (typed = true /\ u_s (up_cur p) = sCont) \/
+  ((u_s (up_cur p) = sWithLen \/ u_s (up_cur p) = sFieldName \/ u_s (up_cur p) = sFieldNameLen) /\
+   up_lcur p = 0).
+Proof.
+  intros p typed [[Ht ->]|[Ht ->]] H; unfold cstep, can_step_without_input in H; rewrite Ht in H.
+  - change (tObjectCount =? tFixed) with false in H. change (tObjectCount =? tArrayCount) with false in H.
+    change (tObjectCount =? tArrayTyped) with false in H. change (tObjectCount =? tObjectDyn) with false in H.
+    change (tObjectCount =? tObjectCount) with true in H. cbv iota in H. right. blia.
+  - change (tObjectTyped =? tFixed) with false in H. change (tObjectTyped =? tArrayCount) with false in H.
+    change (tObjectTyped =? tArrayTyped) with false in H. change (tObjectTyped =? tObjectDyn) with false in H.
+    change (tObjectTyped =? tObjectCount) with false in H.
+    change (tObjectTyped =? tObjectTyped) with true in H. cbv iota in H.
+    apply orb_true_iff in H. destruct H as [H|H]; [left; split; [reflexivity|lia]|right; blia].
+Qed.
+
+(* not in the header *)
+Definition in_content (p : uparser) (typed : bool) : Prop :=
+  u_s (up_cur p) <> sStart /\
+  (typed = true -> u_s (up_cur p) <> sWithType0 /\ u_s (up_cur p) <> sWithType1).
+
+Lemma content_dich : forall typed b p s a,
+  objc p typed -> in_content p typed -> good p -> a <> [] \/ cstep p = true -> b <> [] ->
+  Dich b (obj_wrap typed (ustep_obj_content p s a typed))
+         (obj_wrap typed (ustep_obj_content p s (a ++ b) typed)).
+Proof.
+  intros typed b p s a Ho (N1 & N2) Hg Ha Hb0. rewrite !obj_content_eq. cbv zeta.
+  assert (Ha2 : a <> [] \/ (typed = true /\ u_s (up_cur p) = sCont) \/
+     ((u_s (up_cur p) = sWithLen \/ u_s (up_cur p) = sFieldName \/ u_s (up_cur p) = sFieldNameLen) /\
+      up_lcur p = 0)).
+  { destruct Ha as [Ha|Ha]; [left; exact Ha|right]. eapply cstep_objc_true; eauto. }
+  destruct (u_s (up_cur p) =? sWithLen) eqn:C1.
+  { apply Z.eqb_eq in C1.
+    assert (Hl : lenst p = false) by (apply (lenst_objc_other p typed Ho); auto).
+    assert (Hc : clean p).
+    { apply good_clean; [exact Hg|exact Hl|]. apply (count_of_objc_0 p typed Ho Hl). rewrite C1. discriminate. }
+    unfold oc_withlen. destruct (uvis s _) as [s1 e].
+    destruct (negb (unil e)) eqn:Ee.
+    { apply Dich_ext, wrap_ext, extO_err. apply unil_false. apply negb_true_iff. exact Ee. }
+    destruct (up_lcur p =? 0) eqn:El.
+    { apply Dich_ext, wrap_ext, oc_close_ext. }
+    apply oc_field_name_dich; [exact Ho|reflexivity|left; apply Hc| |exact Hb0].
+    left. destruct Ha2 as [Ha2|[[_ Ha2]|[_ Ha2]]]; [exact Ha2| |]; pc; [rewrite C1 in Ha2; discriminate|lia]. }
+  destruct (u_s (up_cur p) =? sFieldName) eqn:C2.
+  { apply Z.eqb_eq in C2.
+    assert (Hbuf : bufok p (markcount (up_marker p))).
+    { destruct (lenst p) eqn:Hl; [apply good_len; assumption|].
+      destruct (good_nolen p Hg Hl) as [Hm Hb]. rewrite Hm.
+      rewrite (count_of_objc_0 p typed Ho Hl) in Hb by (rewrite C2; discriminate). exact Hb. }
+    apply oc_field_name_dich; [exact Ho|exact C2|exact Hbuf| |exact Hb0].
+    destruct Ha2 as [Ha2|[[_ Ha2]|[_ Ha2]]]; [left; exact Ha2| |right; exact Ha2].
+    rewrite C2 in Ha2. discriminate. }
+  destruct (u_s (up_cur p) =? sFieldNameLen) eqn:C3.
+  { apply Z.eqb_eq in C3.
+    assert (Hl : lenst p = false) by (apply (lenst_objc_other p typed Ho); auto).
+    destruct (good_nolen p Hg Hl) as [Hm Hb].
+    rewrite (count_of_objc_key p typed Ho C3) in Hb.
+    apply oc_key_dich; auto. }
+  destruct (u_s (up_cur p) =? sCont) eqn:C4.
+  { apply Dich_ext, wrap_ext, oc_cont_ext; auto.
+    destruct Ha2 as [Ha2|[[Ha2 _]|[Ha2 _]]]; [left; exact Ha2|right; exact Ha2|]. blia. }
+  apply Dich_ext, wrap_ext, oc_close_ext.
+Qed.
+
+(* what stepObjectCountedContent leaves behind *)
+Definition OPost (fin : bool) (p1 : uparser) : Prop :=
+  (fin = true -> up_err p1 = 0 /\ base p1 /\ mid (up_cur p1) /\ clean p1) /\
+  (fin = false -> Inv p1).
+
+Lemma wrap_post : forall typed fin p1 s1 rest e p2 s2 rest' d,
+  OPost fin p1 ->
+  obj_wrap typed (OC fin p1 s1 rest e) = UR p2 s2 rest' d unilE -> Post p2 d.
+Proof.
+  intros typed fin p1 s1 rest e p2 s2 rest' d [O1 O2] H. cbn [obj_wrap] in H.
+  destruct (fin && unil e) eqn:E.
+  - apply andb_true_iff in E. destruct E as [-> _].
+    destruct (O1 eq_refl) as (He & Hb & Hm & Hc).
+    destruct (upop_len_state _) as [q dq] eqn:Ep. invSR H. destruct typed.
+    + destruct (v_pop_proj p1) as (A & _ & _ & _ & _ & _ & G).
+      eapply upop_len_state_post; [| | | |exact Ep].
+      * congruence.
+      * apply base_v_pop; exact Hb.
+      * rewrite A; exact Hm.
+      * apply clean_v_pop; exact Hc.
+    + eapply upop_len_state_post; eauto.
+  - invSR H. rewrite unil_nil, andb_true_r in E. subst d.
+    split; [apply O2; reflexivity|discriminate].
+Qed.
+
+Lemma OPost_close_true : forall p s rest e fin p1 s1 rest',
+  up_err p = 0 -> base p -> mid (up_cur p) -> clean p ->
+  oc_close true p s rest e = OC fin p1 s1 rest' unilE -> OPost fin p1.
+Proof.
+  intros p s rest e fin p1 s1 rest' He Hb Hm Hc H. unfold oc_close in H.
+  destruct (uvis s EObjEnd) as [s2 e2]. invSR H. split; [auto|discriminate].
+Qed.
+Lemma OPost_close_false : forall p s rest e fin p1 s1 rest',
+  Inv p -> oc_close false p s rest e = OC fin p1 s1 rest' unilE -> OPost fin p1.
+Proof.
+  intros p s rest e fin p1 s1 rest' HI H. unfold oc_close in H. invSR H.
+  split; [discriminate|auto].
+Qed.
+
+Lemma oc_field_name_post : forall typed q s a fin p1 s1 rest,
+  objc q typed -> u_s (up_cur q) = sFieldName -> up_err q = 0 -> base q ->
+  (up_lcur q = 0 -> clean q) -> bufok q (markcount (up_marker q)) ->
+  oc_field_name q s a = OC fin p1 s1 rest unilE -> OPost fin p1.
+Proof.
+  intros typed q s a fin p1 s1 rest Ho Hs He Hb Hc Hbuf H. unfold oc_field_name in H.
+  destruct (up_lcur q =? 0) eqn:El.
+  { apply Z.eqb_eq in El. eapply OPost_close_true; [| | | |exact H]; auto.
+    eapply objc_mid; eauto. }
+  set (cont := with_step (up_cur q) sFieldNameLen) in *.
+  destruct (ustep_len q a cont) as [q1 rest1 e|c] eqn:EL; [|discriminate].
+  cbn [oc_len] in H. eapply OPost_close_false; [|exact H].
+  assert (Ee : e = unilE) by (unfold oc_close in H; inversion H; reflexivity). subst e.
+  pose proof (ustep_len_res cont q a q1 rest1 Hbuf EL) as LR.
+  pose proof (base_len_res cont q q1 Hb LR eq_refl) as Hbq.
+  destruct LR as (A & B & C & D & [(F & G & _ & K)|(F & G)]).
+  - eapply Inv_len_partial; eauto.
+    rewrite (lenst_objc_fn q typed Ho Hs), El. reflexivity.
+  - apply Inv_clean; [congruence|exact Hbq|exact G].
+Qed.
+
+Lemma oc_key_post : forall typed p s a fin p1 s1 rest,
+  objc p typed -> u_s (up_cur p) = sFieldNameLen -> up_err p = 0 -> base p ->
+  up_marker p = 0 -> bufok p (up_lcur p) ->
+  oc_key p s a = OC fin p1 s1 rest unilE -> OPost fin p1.
+Proof.
+  intros typed p s a fin p1 s1 rest Ho Hs He Hb Hm Hbuf H. unfold oc_key in H.
+  assert (Hdone : forall q, up_err q = 0 -> base q -> clean q -> Inv (uset_step (ul_pop q) sCont)).
+  { intros q E1 E2 E3. apply Inv_clean.
+    - rewrite err_key_done. exact E1.
+    - apply base_key_done. exact E2.
+    - apply clean_key_done. exact E3. }
+  destruct (up_lcur p =? 0) eqn:El.
+  { apply Z.eqb_eq in El. rewrite El in Hbuf. apply bufok_0 in Hbuf.
+    destruct (uvis s _) as [s2 e]. eapply OPost_close_false; [|exact H].
+    apply Hdone; auto. split; assumption. }
+  destruct (ucollect p a (up_lcur p)) as [q rest1 [t|]|] eqn:E; [..|discriminate].
+  - destruct (collect_some_app p a [] _ _ _ _ Hbuf E) as [_ ->].
+    destruct (uvis s _) as [s2 e]. eapply OPost_close_false; [|exact H].
+    apply Hdone; pc; auto. split; pc; auto.
+  - destruct (collect_none_app p a [] _ _ _ Hbuf E) as (-> & -> & Hb1 & _ & _).
+    eapply OPost_close_false; [|exact H].
+    split; [exact He|right]. split; [exact Hb|]. split.
+    + change (count_of (uset_buf p (up_buf p ++ a))) with (count_of p).
+      rewrite (count_of_objc_key p typed Ho Hs). exact Hb1.
+    + intros _. exact Hm.
+Qed.
+
+Lemma oc_cont_post : forall typed p s a fin p1 s1 rest,
+  up_err p = 0 -> base p -> clean p ->
+  oc_cont p s a typed = OC fin p1 s1 rest unilE -> OPost fin p1.
+Proof.
+  intros typed p s a fin p1 s1 rest He Hb Hc H. unfold oc_cont in H.
+  assert (HI : Inv p) by (apply Inv_clean; assumption).
+  assert (Hb1 : base (uset_step (uset_lcur p (up_lcur p - 1)) sFieldName)).
+  { apply base_set_step. exact Hb. }
+  assert (Hpush : Inv (u_push (uset_step (uset_lcur p (up_lcur p - 1)) sFieldName)
+                              (up_vcur (uset_step (uset_lcur p (up_lcur p - 1)) sFieldName)))).
+  { apply Inv_push_vcur; auto. }
+  destruct a as [|x r].
+  - destruct typed; [|discriminate]. eapply OPost_close_false; [|exact H]. exact Hpush.
+  - destruct (negb typed && (x =? mN)).
+    { eapply OPost_close_false; [|exact H]. exact HI. }
+    destruct typed.
+    { eapply OPost_close_false; [|exact H]. exact Hpush. }
+    destruct (ustep_value _ s (x :: r)) as [p2 s2 rest2 d2 e2|c] eqn:E; cbn [value_nodone] in H;
+      [|discriminate].
+    eapply OPost_close_false; [|exact H].
+    assert (Ee : e2 = unilE) by (unfold oc_close in H; inversion H; reflexivity). subst e2.
+    eapply ustep_value_post; [| | |exact E]; auto.
+Qed.
+
+Lemma content_post : forall typed p s a fin p1 s1 rest,
+  objc p typed -> in_content p typed -> up_err p = 0 -> good p ->
+  ustep_obj_content p s a typed = OC fin p1 s1 rest unilE -> OPost fin p1.
+Proof.
+  intros typed p s a fin p1 s1 rest Ho (N1 & N2) He Hg H.
+  rewrite obj_content_eq in H. cbv zeta in H.
+  assert (Hb : base p) by apply Hg.
+  assert (HI : Inv p) by (split; [exact He|right; exact Hg]).
+  pose proof (objc_mid p typed Ho) as Hmid.
+  destruct (u_s (up_cur p) =? sWithLen) eqn:C1.
+  { apply Z.eqb_eq in C1.
+    assert (Hl : lenst p = false) by (apply (lenst_objc_other p typed Ho); auto).
+    assert (Hc : clean p).
+    { apply good_clean; [exact Hg|exact Hl|]. apply (count_of_objc_0 p typed Ho Hl). rewrite C1. discriminate. }
+    unfold oc_withlen in H. destruct (uvis s _) as [s2 e].
+    destruct (negb (unil e)) eqn:Ee.
+    { invSR H. discriminate. }
+    destruct (up_lcur p =? 0) eqn:El.
+    { eapply OPost_close_true; [| | | |exact H]; auto. }
+    eapply (oc_field_name_post typed); [| | | | | |exact H];
+      [exact Ho|reflexivity|exact He|apply base_set_step; exact Hb|intros _; exact Hc|left; apply Hc]. }
+  destruct (u_s (up_cur p) =? sFieldName) eqn:C2.
+  { apply Z.eqb_eq in C2.
+    destruct (lenst p) eqn:Hl.
+    - eapply (oc_field_name_post typed); [| | | | | |exact H]; auto.
+      + intros L0. rewrite (lenst_objc_fn p typed Ho C2), L0 in Hl. discriminate.
+      + apply good_len; assumption.
+    - destruct (good_nolen p Hg Hl) as [Hm Hbf].
+      rewrite (count_of_objc_0 p typed Ho Hl) in Hbf by (rewrite C2; discriminate).
+      eapply (oc_field_name_post typed); [| | | | | |exact H]; auto.
+      + intros _. split; [apply bufok_0; exact Hbf|exact Hm].
+      + rewrite Hm. exact Hbf. }
+  destruct (u_s (up_cur p) =? sFieldNameLen) eqn:C3.
+  { apply Z.eqb_eq in C3.
+    assert (Hl : lenst p = false) by (apply (lenst_objc_other p typed Ho); auto).
+    destruct (good_nolen p Hg Hl) as [Hm Hbf].
+    rewrite (count_of_objc_key p typed Ho C3) in Hbf.
+    eapply (oc_key_post typed); [| | | | | |exact H]; auto. }
+  assert (Hl : lenst p = false).
+  { apply (lenst_objc_other p typed Ho). right. right.
+    destruct (u_s (up_cur p) =? sCont) eqn:C4; [left; lia|right].
+    split; [exact N1|]. split; [intros Hty; apply N2; exact Hty|lia]. }
+  assert (Hc : clean p).
+  { apply good_clean; [exact Hg|exact Hl|]. apply (count_of_objc_0 p typed Ho Hl). lia. }
+  destruct (u_s (up_cur p) =? sCont) eqn:C4.
+  { eapply oc_cont_post; [| | |exact H]; auto. }
+  eapply OPost_close_false; [|exact H]. exact HI.
+Qed.
+
+Lemma cstep_objc_start : forall p typed, objc p typed -> cstep p = true -> in_content p typed.
+Proof.
+  intros p typed Ho H. destruct (cstep_objc_true p typed Ho H) as [[_ H1]|[H1 _]];
+    unfold in_content; blia.
+Qed.
+
+Lemma obj_counted_dich : forall b p s a,
+  u_t (up_cur p) = tObjectCount -> good p -> a <> [] \/ cstep p = true -> b <> [] ->
+  Dich b (obj_counted p s a) (obj_counted p s (a ++ b)).
+Proof.
+  intros b p s a Ht Hg Ha Hb0. rewrite !obj_counted_eq.
+  assert (Ho : objc p false) by (left; auto).
+  destruct (u_s (up_cur p) =? sStart) eqn:E1.
+  - assert (Ha' : a <> []).
+    { destruct Ha as [Ha|Ha]; [exact Ha|]. apply (cstep_objc_start p false Ho) in Ha.
+      destruct Ha as [Ha _]. lia. }
+    assert (Hl : lenst p = true) by (unfold lenst; blia).
+    eapply of_ul_dich; [exact Hl| |].
+    + apply ustep_len_dich; auto. apply good_len; assumption.
+    + intros q g s' A B C. rewrite xb_objcount by congruence.
+      rewrite obj_counted_eq. rewrite A, E1. reflexivity.
+  - apply content_dich; auto. split; [lia|discriminate].
+Qed.
+
+Lemma obj_counted_post : forall p s a p1 s1 rest d,
+  up_err p = 0 -> good p -> u_t (up_cur p) = tObjectCount ->
+  obj_counted p s a = UR p1 s1 rest d unilE -> Post p1 d.
+Proof.
+  intros p s a p1 s1 rest d He Hg Ht H. rewrite obj_counted_eq in H.
+  assert (Ho : objc p false) by (left; auto).
+  destruct (u_s (up_cur p) =? sStart) eqn:E1.
+  - apply (of_ul_post _ p s a p1 s1 rest d He Hg) with (3 := H); [unfold lenst; blia|reflexivity].
+  - destruct (ustep_obj_content p s a false) as [fin q sq rq eq|c] eqn:E; [|discriminate].
+    assert (Ee : eq = unilE).
+    { cbn [obj_wrap] in H. destruct (fin && unil eq) eqn:F.
+      - apply andb_true_iff in F. destruct F as [_ F]. apply unil_true. exact F.
+      - inversion H. reflexivity. }
+    subst eq. eapply wrap_post; [|exact H].
+    eapply content_post; [exact Ho| |exact He|exact Hg|exact E]. split; [lia|discriminate].
+Qed.
+
+Lemma obj_typed_dich : forall b p s a,
+  u_t (up_cur p) = tObjectTyped -> good p -> a <> [] \/ cstep p = true -> b <> [] ->
+  Dich b (obj_typed p s a) (obj_typed p s (a ++ b)).
+Proof.
+  intros b p s a Ht Hg Ha Hb0. rewrite !obj_typed_eq.
+  assert (Ho : objc p true) by (right; auto).
+  destruct ((u_s (up_cur p) =? sStart) || (u_s (up_cur p) =? sWithType0) || (u_s (up_cur p) =? sWithType1)) eqn:E1.
+  - pose proof (header_steps_cases p E1) as Hs.
+    assert (Ha' : a <> []).
+    { destruct Ha as [Ha|Ha]; [exact Ha|]. apply (cstep_objc_start p true Ho) in Ha.
+      destruct Ha as [Ha1 Ha2]. destruct (Ha2 eq_refl). blia. }
+    apply header_dich; auto; [right; exact Ht|].
+    intros q g s' A. rewrite xb_objtyped by congruence. rewrite obj_typed_eq, A, E1. reflexivity.
+  - apply content_dich; auto. split; [lia|intros _; split; lia].
+Qed.
+
+Lemma obj_typed_post : forall p s a p1 s1 rest d,
+  up_err p = 0 -> good p -> u_t (up_cur p) = tObjectTyped ->
+  obj_typed p s a = UR p1 s1 rest d unilE -> Post p1 d.
+Proof.
+  intros p s a p1 s1 rest d He Hg Ht H. rewrite obj_typed_eq in H.
+  assert (Ho : objc p true) by (right; auto).
+  destruct ((u_s (up_cur p) =? sStart) || (u_s (up_cur p) =? sWithType0) || (u_s (up_cur p) =? sWithType1)) eqn:E1.
+  - pose proof (header_steps_cases p E1) as Hs.
+    eapply header_post; [exact He|right; exact Ht|exact Hg|exact Hs|exact H].
+  - destruct (ustep_obj_content p s a true) as [fin q sq rq eq|c] eqn:E; [|discriminate].
+    assert (Ee : eq = unilE).
+    { cbn [obj_wrap] in H. destruct (fin && unil eq) eqn:F.
+      - apply andb_true_iff in F. destruct F as [_ F]. apply unil_true. exact F.
+      - inversion H. reflexivity. }
+    subst eq. eapply wrap_post; [|exact H].
+    eapply content_post; [exact Ho| |exact He|exact Hg|exact E]. split; [lia|intros _; split; lia].
+Qed.
+
+(* ---------- all states ---------- *)
+Lemma t_cases : forall t,
+  t = tFail \/ t = tNext \/ t = tFixed \/ t = tHighPrec \/ t = tString \/ t = tArray \/
+  t = tArrayDyn \/ t = tArrayCount \/ t = tArrayTyped \/ t = tObject \/ t = tObjectDyn \/
+  t = tObjectCount \/ t = tObjectTyped \/ (t < 0 \/ t > 12).
+Proof. intros t. blia. Qed.
+
+Lemma xlatch_nil : forall r p1 s1 rest d,
+  xlatch r = UR p1 s1 rest d unilE -> r = UR p1 s1 rest d unilE.
+Proof.
+  intros [p s rest0 d0 e|c] p1 s1 rest d H; cbn [xlatch] in H; [|discriminate].
+  destruct (unil e) eqn:E; [exact H|]. inversion H; subst. discriminate.
+Qed.
+
+Lemma PostAt_all : forall f, PostAt f.
+Proof.
+  induction f as [|f IH]; intros p s a p1 s1 rest d HI H; [discriminate|].
+  rewrite uexec_S in H. apply xlatch_nil in H.
+  destruct HI as [He [Hd|Hg]].
+  { rewrite xb_fail in H by exact Hd. invSR H. split; [|discriminate]. split; [exact He|left; exact Hd]. }
+  destruct (t_cases (u_t (up_cur p))) as [T|[T|[T|[T|[T|[T|[T|[T|[T|[T|[T|[T|[T|T]]]]]]]]]]]]].
+  - exfalso. destruct Hg as ((Hs & _) & _). apply stk_notfail in Hs. congruence.
+  - rewrite xb_next in H by exact T. eapply next_post; eauto.
+  - rewrite xb_fixed in H by exact T. eapply ustep_fixed_post; eauto.
+  - rewrite xb_string in H by (left; exact T). eapply ustep_string_post; eauto. left; exact T.
+  - rewrite xb_string in H by (right; exact T). eapply ustep_string_post; eauto. right; exact T.
+  - rewrite xb_arr in H by exact T. eapply arr_start_post; eauto.
+  - rewrite xb_arrdyn in H by exact T. eapply arr_dyn_post; eauto.
+  - rewrite xb_arrcount in H by exact T. eapply arr_counted_post; eauto.
+  - rewrite xb_arrtyped in H by exact T. eapply arr_typed_post; eauto.
+  - rewrite xb_obj in H by exact T. eapply obj_start_post; eauto.
+  - rewrite xb_objdyn in H by exact T.
+    destruct ((u_s (up_cur p) =? sFieldNameLen) && (up_lcur p =? 0)) eqn:K.
+    + apply andb_true_iff in K. destruct K as [K1 K2].
+      apply Z.eqb_eq in K1. apply Z.eqb_eq in K2.
+      eapply obj_dyn_emptykey_post; eauto.
+    + eapply obj_dyn_post; eauto.
+  - rewrite xb_objcount in H by exact T. eapply obj_counted_post; eauto.
+  - rewrite xb_objtyped in H by exact T. eapply obj_typed_post; eauto.
+  - rewrite xb_other in H by exact T. invSR H.
+Qed.
+
+Lemma need_input : forall p (a : bytes), a <> [] \/ cstep p = true -> cstep p = false -> a <> [].
+Proof. intros p a [H|H] E; [exact H|congruence]. Qed.
+
+Lemma DichAt_all : forall f, DichAt f.
+Proof.
+  induction f as [|f IH]; intros p s a b HI Ha Hb0; [exact I|].
+  rewrite !uexec_S. apply Dich_latch.
+  destruct HI as [He [Hd|Hg]].
+  { rewrite !xb_fail by exact Hd. apply Dich_ext. destruct (up_err p =? 0); ext_solve. }
+  destruct (t_cases (u_t (up_cur p))) as [T|[T|[T|[T|[T|[T|[T|[T|[T|[T|[T|[T|[T|T]]]]]]]]]]]]].
+  - exfalso. destruct Hg as ((Hs & _) & _). apply stk_notfail in Hs. congruence.
+  - rewrite !xb_next by exact T. apply Dich_ext, ustep_value_ext.
+    apply (need_input p a Ha). apply cstep_false_t. auto.
+  - rewrite !xb_fixed by exact T. apply ustep_fixed_dich; auto.
+    destruct (good_nolen p Hg (lenst_fixed p T)) as [_ Hb]. rewrite count_of_fixed in Hb by exact T. exact Hb.
+  - rewrite !xb_string by (left; exact T). apply ustep_string_dich; auto; [left; exact T|].
+    apply (need_input p a Ha). apply cstep_str. left; exact T.
+  - rewrite !xb_string by (right; exact T). apply ustep_string_dich; auto; [right; exact T|].
+    apply (need_input p a Ha). apply cstep_str. right; exact T.
+  - rewrite !xb_arr by exact T. apply Dich_ext, arr_start_ext.
+    apply (need_input p a Ha). apply cstep_false_t. auto.
+  - rewrite !xb_arrdyn by exact T. apply Dich_ext, arr_dyn_ext.
+    apply (need_input p a Ha). apply cstep_false_t. auto.
+  - rewrite !xb_arrcount by exact T. apply arr_counted_dich; auto.
+  - rewrite !xb_arrtyped by exact T. apply arr_typed_dich; auto.
+  - rewrite !xb_obj by exact T. apply Dich_ext, obj_start_ext.
+    apply (need_input p a Ha). apply cstep_false_t. auto.
+  - rewrite !xb_objdyn by exact T.
+    destruct ((u_s (up_cur p) =? sFieldNameLen) && (up_lcur p =? 0)) eqn:K.
+    + apply Dich_ext, obj_dyn_emptykey_ext.
+    + apply obj_dyn_dich; auto.
+      apply (need_input p a Ha). rewrite cstep_objdyn by exact T. exact K.
+  - rewrite !xb_objcount by exact T. apply obj_counted_dich; auto.
+  - rewrite !xb_objtyped by exact T. apply obj_typed_dich; auto.
+  - rewrite !xb_other by exact T. apply Dich_ext. ext_solve.
+Qed.
+
+Lemma exec_post : forall p s a p1 s1 rest d,
+  Inv p -> uexec_step p s a = UR p1 s1 rest d unilE -> Post p1 d.
+Proof. intros. eapply (PostAt_all 3); eauto. Qed.
+Lemma exec_dich : forall p s a b,
+  Inv p -> a <> [] \/ cstep p = true -> b <> [] ->
+  Dich b (uexec_step p s a) (uexec_step p s (a ++ b)).
+Proof. intros. apply (DichAt_all 3); auto. Qed.
+
+(* ---------- merging two consecutive feeds into one ---------- *)
+(* same visitor, same error; the same parser unless an error occurred *)
+Definition sim (r r' : fres) : Prop :=
+  let '(p, s, e) := r in let '(p', s', e') := r' in
+  s = s' /\ e = e' /\ (e = unilE -> p = p').
+Lemma sim_refl : forall r, sim r r.
+Proof. intros [[p s] e]; cbn; auto. Qed.
+
+Lemma done_nostep : forall p1 d, Post p1 d -> d = true -> cstep p1 = false.
+Proof. intros p1 d [_ H] Hd. apply cstep_false_t. left. apply H. exact Hd. Qed.
+
+Lemma R_ext_nil : forall p1 s1 b p s x r,
+  Inv p1 -> Inv p ->
+  ext [] (uexec_step p1 s1 b) (uexec_step p s x) -> R p1 s1 b r ->
+  exists r', R p s x r' /\ sim r r'.
+Proof.
+  intros p1 s1 b p s x r HI1 HI X H.
+  inversion H; subst;
+    match goal with E : uexec_step p1 s1 b = _ |- _ => rewrite E in X; rename E into E0 end;
+    destruct (uexec_step p s x) as [pw sw restw dw ew|w] eqn:W; cbn [ext] in X;
+    try contradiction; destruct X as (<- & <- & X).
+  - eexists; split; [eapply R_err; eauto|]. cbn. repeat split; auto. congruence.
+  - destruct (X eq_refl) as (<- & ->). rewrite app_nil_r in W.
+    eexists; split; [eapply R_more; eauto|apply sim_refl].
+  - destruct (X eq_refl) as (<- & ->). cbn [app] in W.
+    destruct dw.
+    + pose proof (exec_post _ _ _ _ _ _ _ HI W) as P.
+      rewrite (done_nostep _ _ P eq_refl) in *. discriminate.
+    + eexists; split; [eapply R_stut; eauto|apply sim_refl].
+  - destruct (X eq_refl) as (<- & ->). cbn [app] in W.
+    eexists; split; [eapply R_stop; [exact W|]|apply sim_refl].
+    pose proof (exec_post _ _ _ _ _ _ _ HI1 E0) as P.
+    match goal with Hd : _ \/ _ |- _ =>
+      destruct Hd as [Hd|Hd]; [right; apply (done_nostep _ _ P Hd)|right; exact Hd] end.
+Qed.
+
+Lemma R_merge : forall p s a r, R p s a r ->
+  Inv p -> a <> [] \/ cstep p = true -> forall b, b <> [] ->
+  (snd r <> unilE -> exists p1', R p s (a ++ b) (p1', snd (fst r), snd r)) /\
+  (snd r = unilE -> forall r2, R (fst (fst r)) (snd (fst r)) b r2 ->
+                   exists r2', R p s (a ++ b) r2' /\ sim r2 r2').
+Proof.
+  induction 1 as [p s a p1 s1 rest d e E Hn | p s a p1 s1 rest d r E Hr HR IH
+                 | p s a p1 s1 r E Hx HR IH | p s a p1 s1 d E Hd];
+    intros HI Ha b Hb;
+    pose proof (exec_dich p s a b HI Ha Hb) as D; rewrite E in D; cbn [Dich] in D.
+  - cbn [fst snd]. split; [intros _|congruence].
+    destruct D as [D|(_ & D & _)]; [|congruence].
+    destruct (uexec_step p s (a ++ b)) as [p2 s2 rest2 d2 e2|w] eqn:W; cbn [ext] in D;
+      [|contradiction].
+    destruct D as (<- & <- & _). exists p2. eapply R_err; eauto.
+  - destruct D as [D|(D & _)]; [|congruence].
+    destruct (uexec_step p s (a ++ b)) as [p2 s2 rest2 d2 e2|w] eqn:W; cbn [ext] in D;
+      [|contradiction].
+    destruct D as (<- & <- & D). destruct (D eq_refl) as (<- & ->).
+    assert (HI1 : Inv p1) by (eapply exec_post; eauto).
+    destruct (IH HI1 (or_introl Hr) b Hb) as [IH1 IH2].
+    assert (Hrb : rest ++ b <> []) by (apply app_nonnil; exact Hr).
+    split.
+    + intros Hn. destruct (IH1 Hn) as [p1' R1]. exists p1'. eapply R_more; eauto.
+    + intros Hn r2 R2. destruct (IH2 Hn r2 R2) as (r2' & R2' & S2).
+      exists r2'. split; [eapply R_more; eauto|exact S2].
+  - destruct D as [D|(_ & _ & D & _)]; [|unfold cstep in *; congruence].
+    destruct (uexec_step p s (a ++ b)) as [p2 s2 rest2 d2 e2|w] eqn:W; cbn [ext] in D;
+      [|contradiction].
+    destruct D as (<- & <- & D). destruct (D eq_refl) as (<- & ->). cbn [app] in W.
+    assert (HI1 : Inv p1) by (eapply exec_post; eauto).
+    destruct (IH HI1 (or_intror Hx) b Hb) as [IH1 IH2]. cbn [app] in IH1, IH2.
+    split.
+    + intros Hn. destruct (IH1 Hn) as [p1' R1]. exists p1'. eapply R_more; eauto.
+    + intros Hn r2 R2. destruct (IH2 Hn r2 R2) as (r2' & R2' & S2).
+      exists r2'. split; [eapply R_more; eauto|exact S2].
+  - cbn [fst snd]. split; [congruence|intros _ r2 R2].
+    assert (HI1 : Inv p1) by (eapply exec_post; eauto).
+    destruct D as [D|(_ & _ & _ & D)].
+    + destruct (uexec_step p s (a ++ b)) as [p2 s2 rest2 d2 e2|w] eqn:W; cbn [ext] in D;
+        [|contradiction].
+      destruct D as (<- & <- & D). destruct (D eq_refl) as (<- & ->). cbn [app] in W.
+      exists r2. split; [eapply R_more; eauto|apply sim_refl].
+    + eapply R_ext_nil; [exact HI1|exact HI|exact (D 2%nat)|exact R2].
+Qed.
+
+Lemma R_inv : forall p s a r, R p s a r -> Inv p -> snd r = unilE -> Inv (fst (fst r)).
+Proof.
+  induction 1 as [p s a p1 s1 rest d e E Hn | p s a p1 s1 rest d r E Hr HR IH
+                 | p s a p1 s1 r E Hx HR IH | p s a p1 s1 d E Hd]; intros HI Hn'.
+  - cbn in Hn'. congruence.
+  - apply IH; auto. eapply exec_post; eauto.
+  - apply IH; auto. eapply exec_post; eauto.
+  - cbn. eapply exec_post; eauto.
+Qed.
+
+Lemma Feed_inv : forall p s a p1 s1, Feed p s a (p1, s1, unilE) -> Inv p -> Inv p1.
+Proof.
+  intros p s a p1 s1 [[_ H]|[_ H]] HI.
+  - inversion H; subst. exact HI.
+  - apply (R_inv _ _ _ _ H HI eq_refl).
+Qed.
+
+Lemma Feed_merge : forall p s a b p1 s1 e, Inv p -> Feed p s a (p1, s1, e) ->
+  (e <> unilE -> exists p1', Feed p s (a ++ b) (p1', s1, e)) /\
+  (e = unilE -> forall r2, Feed p1 s1 b r2 -> exists r2', Feed p s (a ++ b) r2' /\ sim r2 r2').
+Proof.
+  intros p s a b p1 s1 e HI [[Ha H]|[Ha H]].
+  - inversion H; subst. cbn [app]. split; [congruence|].
+    intros _ r2 F2. exists r2. split; [exact F2|apply sim_refl].
+  - destruct b as [|b0 br].
+    + rewrite app_nil_r. split.
+      * intros _. exists p1. right. auto.
+      * intros -> r2 [[_ ->]|[Hb _]]; [|congruence].
+        exists (p1, s1, unilE). split; [right; auto|apply sim_refl].
+    + assert (Hb : b0 :: br <> []) by discriminate.
+      destruct (R_merge _ _ _ _ H HI (or_introl Ha) _ Hb) as [M1 M2]. cbn [fst snd] in M1, M2.
+      split.
+      * intros Hn. destruct (M1 Hn) as [p1' R1]. exists p1'. right. split; auto.
+        apply app_nonnil; exact Ha.
+      * intros Hn r2 [[Hb' _]|[_ R2]]; [congruence|].
+        destruct (M2 Hn r2 R2) as (r2' & R2' & S2). exists r2'. split; [|exact S2].
+        right. split; auto. apply app_nonnil; exact Ha.
+Qed.
+
+(* ---------- sequences of writes ---------- *)
+Lemma Inv0 : Inv uparser0.
+Proof.
+  split; [reflexivity|right]. split; [|split].
+  - split; [reflexivity|]. split; [discriminate|constructor].
+  - left; reflexivity.
+  - intros _; reflexivity.
+Qed.
+
+(* what a run on the whole input b reports: the visitor and the verdict *)
+Definition fin_obs (pm : uparser) (sm : sink) (em : Z) : sink * Z :=
+  if unil em then (snd (fst (ufin pm sm)), snd (ufin pm sm)) else (sm, em).
+Definition Whole (p : uparser) (s : sink) (b : bytes) (o : sink * Z) : Prop :=
+  exists pm sm em, Feed p s b (pm, sm, em) /\ o = fin_obs pm sm em.
+
+Lemma Whole_det : forall p s b o o', Whole p s b o -> Whole p s b o' -> o = o'.
+Proof.
+  intros p s b o o' (pm & sm & em & F & ->) (pm' & sm' & em' & F' & ->).
+  pose proof (Feed_det _ _ _ _ _ F F') as E. inversion E; subst. reflexivity.
+Qed.
+
+Lemma up_write_Ok : forall p s c p1 s1 err, up_write p s c = Ok (p1, s1, err) ->
+  exists p1', Feed p s c (p1', s1, err) /\
+    p1 = if unil err then uset_err p1' 0 else uset_cur (uset_err p1' err) (mku tFail sStart).
+Proof.
+  intros p s c p1 s1 err H. unfold up_write in H.
+  destruct (ufeed (2 * length c + 2) p s c) as [[[p1' s1'] e']| | |] eqn:E; try discriminate.
+  exists p1'. destruct (unil e') eqn:Ee; inversion H; subst; rewrite Ee;
+    (split; [eapply feed_sound; eauto|reflexivity]).
+Qed.
+
+Lemma writes_whole : forall cs p s pf sf ef, Inv p ->
+  up_writes p s cs = Ok (pf, sf, ef) -> Whole p s (concat cs) (sf, ef).
+Proof.
+  induction cs as [|c cs IH]; intros p s pf sf ef HI H.
+  - cbn [up_writes concat] in *. inversion H as [H0].
+    exists p, s, unilE. split; [left; auto|]. unfold fin_obs. rewrite unil_nil, H0. reflexivity.
+  - cbn [up_writes concat] in *.
+    destruct (up_write p s c) as [[[p1 s1] err]| | |] eqn:E; try discriminate.
+    destruct (up_write_Ok _ _ _ _ _ _ E) as (p1' & F & ->).
+    destruct (Feed_merge p s c (concat cs) p1' s1 err HI F) as [M1 M2].
+    destruct (unil err) eqn:Ee.
+    + apply unil_true in Ee. subst err.
+      assert (HI1 : Inv p1') by (eapply Feed_inv; eauto).
+      rewrite set_err_same in H by apply HI1.
+      destruct (IH _ _ _ _ _ HI1 H) as (pm & sm & em & F2 & O).
+      destruct (M2 eq_refl _ F2) as ([[pm' sm'] em'] & F3 & S3).
+      cbn [sim] in S3. destruct S3 as (<- & <- & S3).
+      exists pm', sm, em. split; [exact F3|]. rewrite O. unfold fin_obs.
+      destruct (unil em) eqn:Em; [|reflexivity].
+      apply unil_true in Em. rewrite (S3 Em). reflexivity.
+    + inversion H; subst. apply unil_false in Ee.
+      destruct (M1 Ee) as [p1'' F3].
+      exists p1'', sf, ef. split; [exact F3|]. unfold fin_obs.
+      apply unil_false in Ee. rewrite Ee. reflexivity.
+Qed.
+
+Lemma parse_whole : forall p s b pf sf ef,
+  up_parse p s b = Ok (pf, sf, ef) -> Whole p s b (sf, ef).
+Proof.
+  intros p s b pf sf ef H. unfold up_parse in H.
+  destruct (ufeed (2 * length b + 2) p s b) as [[[p1 s1] e1]| | |] eqn:E; try discriminate.
+  exists p1, s1, e1. split; [eapply feed_sound; eauto|]. unfold fin_obs.
+  destruct (unil e1); inversion H as [H0]; [rewrite H0|]; reflexivity.
+Qed.
+
+(* One-write split, as a statement about the model functions: when the three
+   calls return, Write(a ++ b) does what Write(a); Write(b) does. *)
+Theorem C02_ubj_write_split : forall p s a b p1 s1 p2 s2 e2 p3 s3 e3,
+  Inv p ->
+  up_write p s a = Ok (p1, s1, unilE) -> up_write p1 s1 b = Ok (p2, s2, e2) ->
+  up_write p s (a ++ b) = Ok (p3, s3, e3) ->
+  s3 = s2 /\ e3 = e2 /\ (e2 = unilE -> p3 = p2).
+Proof.
+  intros p s a b p1 s1 p2 s2 e2 p3 s3 e3 HI W1 W2 W3.
+  destruct (up_write_Ok _ _ _ _ _ _ W1) as (p1' & F1 & E1).
+  destruct (up_write_Ok _ _ _ _ _ _ W2) as (p2' & F2 & E2).
+  destruct (up_write_Ok _ _ _ _ _ _ W3) as (p3' & F3 & E3).
+  assert (HI1 : Inv p1') by (eapply Feed_inv; eauto).
+  rewrite unil_nil in E1.
+  rewrite set_err_same in E1 by apply HI1. subst p1.
+  destruct (Feed_merge p s a b p1' s1 unilE HI F1) as [_ M2].
+  destruct (M2 eq_refl _ F2) as ([[pm sm] em] & F4 & S4).
+  pose proof (Feed_det _ _ _ _ _ F3 F4) as E. inversion E; subst.
+  cbn [sim] in S4. destruct S4 as (<- & <- & S4).
+  repeat split; auto. intros ->. rewrite (S4 eq_refl). reflexivity.
+Qed.
+Print Assumptions C02_ubj_write_split.
+
+(* ---------- C02 ---------- *)
+(* Strongest form: whenever the two runs return at all (no panic, no fuel
+   exhaustion - see ParseSafety), they report exactly the same events and the
+   same verdict (same error class), also when the input is rejected, and for
+   every visitor failure schedule vfail.  (Only the final parser state, the
+   third component, may differ after an error.) *)
+Theorem C02_ubj_chunks_strong : forall vfail cs1 cs2 r1 r2,
+  concat cs1 = concat cs2 ->
+  urun_chunks vfail cs1 = Ok r1 -> urun_chunks vfail cs2 = Ok r2 -> fst r1 = fst r2.
+Proof.
+  intros vfail cs1 cs2 r1 r2 Hc H1 H2. unfold urun_chunks in *.
+  destruct (up_writes uparser0 (sink0 vfail) cs1) as [[[pf1 sf1] ef1]| | |] eqn:E1; try discriminate.
+  destruct (up_writes uparser0 (sink0 vfail) cs2) as [[[pf2 sf2] ef2]| | |] eqn:E2; try discriminate.
+  apply (writes_whole _ _ _ _ _ _ Inv0) in E1. apply (writes_whole _ _ _ _ _ _ Inv0) in E2.
+  rewrite Hc in E1. pose proof (Whole_det _ _ _ _ _ E1 E2) as E. inversion E; subst.
+  inversion H1; inversion H2; subst. reflexivity.
+Qed.
+Print Assumptions C02_ubj_chunks_strong.
+
+Theorem C02_ubj_entry_strong : forall vfail cs r1 r2,
+  urun_parse vfail (concat cs) = Ok r1 -> urun_chunks vfail cs = Ok r2 -> fst r1 = fst r2.
+Proof.
+  intros vfail cs r1 r2 H1 H2. unfold urun_parse, urun_chunks in *.
+  destruct (up_parse uparser0 (sink0 vfail) (concat cs)) as [[[pf1 sf1] ef1]| | |] eqn:E1; try discriminate.
+  destruct (up_writes uparser0 (sink0 vfail) cs) as [[[pf2 sf2] ef2]| | |] eqn:E2; try discriminate.
+  apply parse_whole in E1. apply (writes_whole _ _ _ _ _ _ Inv0) in E2.
+  pose proof (Whole_det _ _ _ _ _ E1 E2) as E. inversion E; subst.
+  inversion H1; inversion H2; subst. reflexivity.
+Qed.
+Print Assumptions C02_ubj_entry_strong.
+
+(* The observation of the task statement: events and accepted? *)
+Definition uobs (r : res (list event * Z * uparser)) : option (list event * bool) :=
+  match r with Ok (evs, e, _) => Some (evs, e =? unilE) | _ => None end.
+Definition same_uobs (r1 r2 : list event * Z * uparser) : Prop := uobs (Ok r1) = uobs (Ok r2).
+
+Lemma same_uobs_of_fst : forall r1 r2, fst r1 = fst r2 -> same_uobs r1 r2.
+Proof.
+  intros [[ev1 e1] p1] [[ev2 e2] p2] H. cbn [fst] in H. inversion H; subst. reflexivity.
+Qed.
+
+Theorem C02_ubj_chunks : forall vfail cs1 cs2 r1 r2,
+  concat cs1 = concat cs2 ->
+  urun_chunks vfail cs1 = Ok r1 -> urun_chunks vfail cs2 = Ok r2 -> same_uobs r1 r2.
+Proof. intros. apply same_uobs_of_fst. eapply C02_ubj_chunks_strong; eauto. Qed.
+Print Assumptions C02_ubj_chunks.
+
+Theorem C02_ubj_entry : forall vfail cs r1 r2,
+  urun_parse vfail (concat cs) = Ok r1 -> urun_chunks vfail cs = Ok r2 -> same_uobs r1 r2.
+Proof. intros. apply same_uobs_of_fst. eapply C02_ubj_entry_strong; eauto. Qed.
+Print Assumptions C02_ubj_entry.
+
+(* The form of the task statement spelled out: when the input is accepted the
+   events are identical, otherwise both runs reject (and then, too, the events
+   before the error and the error class are identical). *)
+Corollary C02_ubj_chunks_cases : forall vfail cs1 cs2 ev1 e1 p1 ev2 e2 p2,
+  concat cs1 = concat cs2 ->
+  urun_chunks vfail cs1 = Ok (ev1, e1, p1) -> urun_chunks vfail cs2 = Ok (ev2, e2, p2) ->
+  ev1 = ev2 /\ e1 = e2 /\ ((e1 = unilE /\ e2 = unilE) \/ (e1 <> unilE /\ e2 <> unilE)).
+Proof.
+  intros vfail cs1 cs2 ev1 e1 p1 ev2 e2 p2 Hc H1 H2.
+  pose proof (C02_ubj_chunks_strong vfail cs1 cs2 _ _ Hc H1 H2) as E. cbn [fst] in E.
+  inversion E; subst. split; [reflexivity|]. split; [reflexivity|].
+  destruct (Z.eq_dec e2 unilE); auto.
+Qed.
+Print Assumptions C02_ubj_chunks_cases.
+
+(* The unconditional statements, given that the model returns on the inputs
+   in some class G (Ubjson/ParseSafety.v: no Panic on any input; OutOfFuel only
+   for typed containers of zero-sized elements with huge counts). *)
+Definition same_uobs_res (r1 r2 : res (list event * Z * uparser)) : Prop :=
+  match r1, r2 with
+  | Ok o1, Ok o2 => fst o1 = fst o2
+  | _, _ => False
+  end.
+Section WithTotality.
+  Variable G : list bytes -> Prop.
+  Hypothesis chunks_total : forall vfail cs, G cs -> exists r, urun_chunks vfail cs = Ok r.
+  Hypothesis parse_total : forall vfail cs, G cs -> exists r, urun_parse vfail (concat cs) = Ok r.
+
+  Theorem C02_ubj_chunks_total : forall vfail cs1 cs2, G cs1 -> G cs2 ->
+    concat cs1 = concat cs2 -> same_uobs_res (urun_chunks vfail cs1) (urun_chunks vfail cs2).
+  Proof.
+    intros vfail cs1 cs2 G1 G2 Hc.
+    destruct (chunks_total vfail cs1 G1) as (r1 & H1).
+    destruct (chunks_total vfail cs2 G2) as (r2 & H2).
+    rewrite H1, H2. cbn. eapply C02_ubj_chunks_strong; eauto.
+  Qed.
+
+  Theorem C02_ubj_entry_total : forall vfail cs, G cs ->
+    same_uobs_res (urun_parse vfail (concat cs)) (urun_chunks vfail cs).
+  Proof.
+    intros vfail cs G1.
+    destruct (parse_total vfail cs G1) as (r1 & H1).
+    destruct (chunks_total vfail cs G1) as (r2 & H2).
+    rewrite H1, H2. cbn. eapply C02_ubj_entry_strong; eauto.
+  Qed.
+End WithTotality.
+Print Assumptions C02_ubj_chunks_total.
+Print Assumptions C02_ubj_entry_total.
+
+(* ---------- the examples the statement was tested on ---------- *)
+Definition obs2 (r : res (list event * Z * uparser)) : option (list event * Z) :=
+  match r with Ok (evs, e, _) => Some (evs, e) | _ => None end.
+(* an object key split across writes *)
+Example ex_key_split :
+  obs2 (urun_chunks None [[123;105;3;97];[98;99;105;1;125]]) =
+  obs2 (urun_parse None [123;105;3;97;98;99;105;1;125]).
+Proof. vm_compute. reflexivity. Qed.
+(* a length marker alone at the end of a write; an empty write *)
+Example ex_marker_alone :
+  obs2 (urun_chunks None [[123;105];[];[3;97;98;99;83;73];[0;2;120;121;125]]) =
+  obs2 (urun_parse None [123;105;3;97;98;99;83;73;0;2;120;121;125]).
+Proof. vm_compute. reflexivity. Qed.
+(* a 0 byte where a length marker is expected: rejected in both *)
+Example ex_zero_marker :
+  obs2 (urun_chunks None [[123;0];[105;1;97;105;5;125]]) = Some ([EObjStart (-1) BAny], ueUnknownMarker) /\
+  obs2 (urun_parse None [123;0;105;1;97;105;5;125]) = Some ([EObjStart (-1) BAny], ueUnknownMarker).
+Proof. split; vm_compute; reflexivity. Qed.
+(* a typed array split inside its header, counted containers that end with the write *)
+Example ex_typed_header :
+  obs2 (urun_chunks None [[91];[36];[105];[35];[105];[2];[1];[2]]) =
+  obs2 (urun_parse None [91;36;105;35;105;2;1;2]) /\
+  obs2 (urun_chunks None [[91;36;105;35];[105;2;1;2];[90]]) =
+  obs2 (urun_parse None [91;36;105;35;105;2;1;2;90]).
+Proof. split; vm_compute; reflexivity. Qed.
